@@ -109,3 +109,20 @@ Proof.
   - rewrite map_map. apply map_ext. intros t. rewrite E. reflexivity.
   - unfold count_if. induction ts as [|t ts IH]; [reflexivity|]. cbn [map filter]. rewrite E. exact IH.
 Qed.
+
+(* a reflected oriented mesh is not oriented (and orient_ then swaps every tetrahedron) *)
+Theorem tet_reflection_unorients Q b v ts : det3 Q = -1 -> tets_in_range (length v) ts ->
+  tet_is_oriented Rops v ts = true ->
+  tet_is_oriented Rops (map (rigid Q b) v) ts = false /\ snd (tet_orient Rops (map (rigid Q b) v) ts) = length ts.
+Proof.
+  intros HQ Hr Ho. apply tet_is_oriented_iff in Ho. destruct Ho as (Hne & Hpos). rewrite Forall_forall in Hpos.
+  pose proof (tet_reflection_negates Q b v ts HQ Hr) as Hneg. split.
+  - destruct (tet_is_oriented Rops (map (rigid Q b) v) ts) eqn:E; [|reflexivity].
+    apply tet_is_oriented_iff in E. destruct E as (_ & Hpos'). rewrite Forall_forall in Hpos'.
+    destruct ts as [|t ts]; [contradiction|]. specialize (Hpos t (or_introl eq_refl)). specialize (Hpos' t (or_introl eq_refl)).
+    rewrite (Hneg t (or_introl eq_refl)) in Hpos'. lra.
+  - rewrite tet_orient_count. f_equal. clear Hne Hr. induction ts as [|t ts IH]; [reflexivity|]. cbn [filter].
+    assert (E : Rltb (tet_vol6 Rops (map (rigid Q b) v) t) 0 = true).
+    { apply Rltb_true. rewrite (Hneg t (or_introl eq_refl)). specialize (Hpos t (or_introl eq_refl)). lra. }
+    rewrite E. f_equal. apply IH; intros u Hu; [apply Hpos|apply Hneg]; right; exact Hu.
+Qed.
